@@ -13,6 +13,8 @@ case $V in
        FLAGS="-DMANIFOLD_VERIF -O2 -g -Wno-error";;
  tsan) ARGS="$COMMON -DMANIFOLD_TEST=OFF -DMANIFOLD_PAR=OFF -DCMAKE_CXX_COMPILER=clang++-14";
        FLAGS="-DMANIFOLD_VERIF -O1 -g -fno-omit-frame-pointer -fsanitize=thread -Wno-error";;
+ ser)  ARGS="$COMMON -DMANIFOLD_TEST=OFF -DMANIFOLD_PAR=OFF -DCMAKE_CXX_COMPILER=g++";
+       FLAGS="-DMANIFOLD_VERIF -O2 -g -Wno-error";;
  obs)  ARGS="$COMMON -DMANIFOLD_TEST=ON -DMANIFOLD_PAR=OFF -DCMAKE_CXX_COMPILER=g++";
        FLAGS="-DMANIFOLD_VERIF -O2 -g -Wno-error";;
  off)  ARGS="-G Ninja -DMANIFOLD_CBIND=ON -DMANIFOLD_TEST=ON -DMANIFOLD_PAR=OFF -DCMAKE_BUILD_TYPE=RelWithDebInfo";
